@@ -156,6 +156,8 @@ def step (s : State) (toks : List String) : State × String :=
   -- `via=new|default` (WengertList::new / Default) is an API variant: same model
   -- f64 self-checks of the harness (implementation vs documented formula): no model involved
   | "@" :: "f64" :: _ => (.none, "f64=ok")
+  -- integer boundary self-checks of the harness (implementation vs the plain operator)
+  | "@" :: "int" :: _ => (.none, "int=ok")
   | "@" :: "tape" :: "fp" :: "big" :: _ => (.big {}, "ok")
   | "@" :: "tape" :: "fp" :: _ => (.fp {}, "ok")
   | "@" :: "tape" :: "rat" :: _ => (.rat {}, "ok")
